@@ -53,6 +53,9 @@ CHECKS = {
  "C16": ("exploration", "reference model of file generations vs real Tailer+fileStream on the real filesystem, step barriers through harness-controlled wakers (under -race)",
    "Every history of length <=3 (quick) / <=5 (thorough) over {append line, fragment, CRLF line, truncate, rename+create, copy+truncate, delete, recreate, poll} plus 300/3000 random histories of length 12/40, a fifth of them with content present before tailing begins; after every step a logical barrier (all live streams back at their waker; stream gone after delete; pattern poll done after recreate); the final delivered sequence must equal the model's (unique ids give a first-difference witness).",
    "The barrier makes 'the tailer has observed each step' a logical condition; a stuck barrier is reported with a goroutine dump (violation when the stream did not end / the path was not tailed again, else inconclusive).", "§4 C16"),
+ "C18": ("exploration", "reference matcher vs real Tailer on the real filesystem, behavioural probes + step barriers (under -race)",
+   "Three fixed configurations x every history of length <=2 (quick) / <=3 (thorough) over 12 steps, plus 120/3000 random configurations (1-3 overlapping absolute/relative patterns, optional ignore regex) with random length-10/15 histories over a 2-directory tree; after each step + pattern poll a unique probe line is appended to every file of the tree: probes of files in the reference matcher's expected set must be delivered exactly once, all others never, and log_count must equal the expected set's size.",
+   "Reference matcher is path/filepath.Match over model paths + ignore regex on the base name; relative patterns are exercised by chdir-ing the test process into the tree.", "§4 C18"),
  "C20": ("exploration", "offline interval-order checker over a hook event log (fan-out, reload phases, per-VM line start/end), under -race",
    "40/1500 runs of a real runtime.Runtime with one program reloaded 3-8 times at PRNG-chosen points while 30-80 numbered lines are pushed back to back; a third of line executions are stretched at the VM line hook and the reload hook yields between stopping the old and starting the new version, producing the window the quantifier names (measured: reloads that found the old version still busy at the next fan-out; floor enforced). The event log must show exactly one line_start per line and no line starting before its predecessor ended; the gauge must end at the last sequence number and the counter at N.",
    "Schedules are provoked, not enumerated; one mutex-protected logical clock orders the log; race reports in this workload are attributed to C11.", "§4 C20"),
